@@ -37,8 +37,10 @@ func (l *LineFilterPlanner) Process(ctx *shared.PlannerContext) (sql.ISelect, er
 			}
 			clause, err = l.doLike(like, likeStr)
 		} else {
+			// the stored line, as doLike reads it: a bare `string` is the alias of the select, i.e. the line a
+			// line_format stage written BEHIND this filter produces
 			clause = sql.Eq(&sqlMatch{
-				col:     sql.NewRawObject("string"),
+				col:     sql.NewRawObject("samples.string"),
 				pattern: l.Val,
 			}, sql.NewIntVal(1))
 		}
@@ -53,7 +55,7 @@ func (l *LineFilterPlanner) Process(ctx *shared.PlannerContext) (sql.ISelect, er
 			clause, err = l.doLike(like, likeStr)
 		} else {
 			clause = sql.Eq(&sqlMatch{
-				col:     sql.NewRawObject("string"),
+				col:     sql.NewRawObject("samples.string"),
 				pattern: l.Val,
 			}, sql.NewIntVal(0))
 		}
